@@ -159,7 +159,7 @@ def o10_8_manifest_codec(mir, tier):
                 res.cases['opts=%s ptrs=%d deleted=%s added=%s' % (''.join(map(str, opt_bits)), len(ptrs), dels, [(simplify(l).as_long(), simplify(f[ff.index('file_number')]).as_long()) for l, f in files])] = 1
                 for label, post, m in ex.check_posts(posts, pc2):
                     res.violations.append({'label': label, 'deleted': dels, 'replay': ['manifest_codec']})
-            ex.run_fn(dec, [tb(buf['tokens'])], e, pc, decoded)      # a slice is a value: advancing a copy leaves the caller's slice alone
+            ex.run_fn(dec, [Ref('$reader')], e, pc, decoded)
         ex.top(enc, [Ref('$m')], {'$state': {}, '$m': m0}, pre, encoded)
         res.absorb(ex)
         for pcx, msg, where in ex.panics:
